@@ -3,6 +3,7 @@ import LiquidVerif.Model.Inherit
 import LiquidVerif.Model.InheritSpec
 import LiquidVerif.Model.InheritParse
 import LiquidVerif.Model.InheritFlat
+import LiquidVerif.Model.InheritAssign
 open Lean LiquidVerif.Inherit
 
 namespace Driver.C18
@@ -119,6 +120,31 @@ def handleFlatSyn (args : List Json) : Json :=
     | _, _, _ => jerr "bad-args"
   | _ => jerr "bad-args"
 
+/-- items with assignment: `["t",s] ["v",x] ["a",x,s] ["s"] ["b",name,[items]]` -/
+partial def parseAItem (j : Json) : Option AItem := do
+  match ← asArr? j with
+  | [.str "t", s] => pure (.text (← asStr? s))
+  | [.str "v", x] => pure (.var (← asStr? x))
+  | [.str "a", x, s] => pure (.assign (← asStr? x) (← asStr? s))
+  | [.str "s"] => pure .super
+  | [.str "b", name, body] =>
+    let items ← (asArr? body).bind (mapM? parseAItem)
+    pure (.block (← asStr? name) items)
+  | _ => none
+
+/-- `["assign", limit, [[items]… leaf first], data]` → output of the chain (the root's probes show the base locals) -/
+def handleAssign (args : List Json) : Json :=
+  match args with
+  | [lim, chain, data] =>
+    let ts := (asArr? chain).bind (mapM? (fun j => (asArr? j).bind (mapM? parseAItem)))
+    match asNat? lim, ts, parseData data with
+    | some lim, some ts, some data =>
+      match arenderChain lim ts data with
+      | .ok (out, _) => Json.mkObj [("ok", jstr out)]
+      | .error e => Json.mkObj [("err", jstr (errName e))]
+    | _, _, _ => jerr "bad-args"
+  | _ => jerr "bad-args"
+
 def commands : List (String × (List Lean.Json → Lean.Json)) :=
-  [("inherit", handle), ("flatten", handleFlatten), ("endblock", handleEndblock), ("flatsyn", handleFlatSyn)]
+  [("inherit", handle), ("flatten", handleFlatten), ("endblock", handleEndblock), ("flatsyn", handleFlatSyn), ("assign", handleAssign)]
 end Driver.C18
